@@ -10,5 +10,5 @@ rsync -a --exclude .git --exclude '__pycache__' /repo/ "$TMP/"
 IXAI_REPO="$TMP" "$@"
 RC=$?
 rm -rf "$TMP"
-( cd "$(dirname "$0")/.." && python3 tools/py2lean.py >/dev/null 2>&1 )
+( cd "$(dirname "$0")/.." && python3 tools/py2lean.py >/dev/null 2>&1; python3 tools/py2lean_eff.py >/dev/null 2>&1 )
 exit $RC
